@@ -678,6 +678,15 @@ def r_find(ck: Checker) -> None:
     fn = f.node
     xp = fn.args.args[1].arg
     what = "find returns the first node findall yields, or None"
+    # a positive pattern: find walks the tree itself and asks match() node by node: the first match in traversal order is not, in general,
+    # the first node findall() yields (findall works step by step from the root, '//A/B' reaches a shallow B before a deep one)
+    own_walk = [lp for lp in walk_body(fn.body) if isinstance(lp, ast.For) and full_traversal(lp.iter) == "self"
+                and any(isinstance(c, ast.Call) and isinstance(c.func, ast.Attribute) and c.func.attr == "match" for c in walk_body(lp.body))
+                and any(isinstance(r, ast.Return) for r in walk_body(lp.body))]
+    if own_walk and not any(isinstance(c, ast.Call) and isinstance(c.func, ast.Attribute) and c.func.attr == "findall" for c in walk_body(fn.body)):
+        ck.violation("R-XP-FIND", f, own_walk[0], what, construct="find: returns the first node of its own traversal that match() accepts instead of the first node findall() yields "
+                     "(the two orders differ, e.g. for '//A/B' with an A nested in an earlier A)")
+        return
     leaves = decision_tree(strip_docstring([st for st in fn.body if not isinstance(st, (ast.Import, ast.ImportFrom))]), resolve="calls", try_as_body=True)
     bad = None
     for lf in leaves:
